@@ -15,8 +15,8 @@ def status_table():
             continue
         e = json.load(open(p)); c = e["coverage"]
         fns = c.get("functions_under_contract") or []
-        short = [re.sub(r"github\.com/russellhaering/gosaml2/?", "", f) for f in fns]
-        fs = ", ".join(f"`{f}`" for f in short[:6]) + (f" +{len(short)-6}" if len(short) > 6 else "")
+        short = [re.sub(r"github\.com/russellhaering/gosaml2/?", "", f).replace("(*SAMLServiceProvider).", "sp.") for f in fns]
+        fs = ", ".join(f"`{f}`" for f in short[:5]) + (f" +{len(short)-5}" if len(short) > 5 else "")
         be = ", ".join(f"{k} {v}" for k, v in sorted((c.get("by_backend") or {}).items()) if v)
         ok = "" if c["discharged"] == c["obligations"] and not e.get("violations") else " **NOT ALL**"
         rows.append(f"| {pid} | {fs} | {c.get('paths', '')} | {c['obligations']}{ok} | {be} | {e['wall_s']} ({c.get('solver_time_s', '')}) | "
